@@ -241,6 +241,13 @@ impl Property for C10 {
         let sig = json!({
             "optimizer": case.net.optimizer.as_ref().map(|o| o.kind()).unwrap_or("default"),
         });
+        for snap in snaps.iter() {
+            for l in snap.layers.iter() {
+                for t in l.iter() {
+                    t.iter().for_each(|x| stats.observe(*x as u64));
+                }
+            }
+        }
         for (step, snap) in snaps.iter().enumerate() {
             let when = if step == 0 {
                 "after creation".to_string()
